@@ -220,3 +220,78 @@ Definition same_lexemes (a b : chars) : bool :=
   | Some ta, Some tb => tokens_eqb ta tb
   | _, _ => false
   end.
+
+(* ---- comparing a pretty-printed text with the plain printer's text ---------------------------------
+   The plain printer writes (quote x) and nil where the pretty printer writes 'x and () : both readings are
+   normalised before they are compared. *)
+Definition quote_chars : chars := list_ascii_of_string "quote".
+Definition nil_chars : chars := list_ascii_of_string "nil".
+(* the plain printer writes |&rest| where the pretty printer writes &rest : bars around a whole atom are dropped *)
+Definition strip_bars (s : chars) : chars :=
+  match s with
+  | c :: r => if Nat.eqb (cn c) 124 then
+                match rev r with
+                | d :: m => if Nat.eqb (cn d) 124 then rev m else s
+                | [] => s
+                end
+              else s
+  | [] => s
+  end.
+Fixpoint norm_sx (x : sx) : sx :=
+  match x with
+  | SAtom s => SAtom (strip_bars s)
+  | SStr s => SStr s
+  | SQuote y => SQuote (norm_sx y)
+  | SList l =>
+      match l with
+      | [] => SAtom nil_chars
+      | [SAtom q; y] => if chars_eqb q quote_chars then SQuote (norm_sx y) else SList [SAtom (strip_bars q); norm_sx y]
+      | _ => SList ((fix go (l : list sx) := match l with [] => [] | a :: r => norm_sx a :: go r end) l)
+      end
+  | SHash o l => SHash o ((fix go (l : list sx) := match l with [] => [] | a :: r => norm_sx a :: go r end) l)
+  end.
+
+Fixpoint sx_eqb (a b : sx) : bool :=
+  let fix all2 (l1 l2 : list sx) : bool :=
+      match l1, l2 with
+      | [], [] => true
+      | x :: r1, y :: r2 => sx_eqb x y && all2 r1 r2
+      | _, _ => false
+      end in
+  match a, b with
+  | SAtom x, SAtom y | SStr x, SStr y => chars_eqb x y
+  | SQuote x, SQuote y => sx_eqb x y
+  | SList x, SList y => all2 x y
+  | SHash o1 x, SHash o2 y => chars_eqb o1 o2 && all2 x y
+  | _, _ => false
+  end.
+
+Definition same_reading (a b : chars) : bool :=
+  match mread a, mread b with
+  | Some x, Some y => sx_eqb (norm_sx x) (norm_sx y)
+  | _, _ => false
+  end.
+
+(* column of every token in the single-line rendering: one space between tokens except after an opener or a quote
+   and before a closing parenthesis *)
+Definition opens (t : token) : bool := match t with LP | HOPEN _ | QUOTE => true | _ => false end.
+Fixpoint flat_cols (prev_opens : bool) (col : nat) (ts : list token) : list (nat * token) :=
+  match ts with
+  | [] => []
+  | t :: r =>
+      let col' := match t with RP => col | _ => if prev_opens then col else S col end in
+      (col', t) :: flat_cols (opens t) (col' + List.length (tok_text t)) r
+  end.
+(* does a quoted list start at or beyond column lim of the single-line rendering? *)
+Fixpoint quoted_list_beyond (lim : nat) (cts : list (nat * token)) : bool :=
+  match cts with
+  | (c, QUOTE) :: ((_, LP) :: _) as r => Nat.leb lim c || quoted_list_beyond lim r
+  | (c, LP) :: ((_, ATOM q) :: ((_, LP) :: _)) as r => (chars_eqb q quote_chars && Nat.leb lim c) || quoted_list_beyond lim r
+  | _ :: r => quoted_list_beyond lim r
+  | [] => false
+  end.
+Definition far_quote_text (text : chars) : bool :=
+  match lex text with
+  | Some ts => quoted_list_beyond 240 (flat_cols true 0 ts)
+  | None => true
+  end.
